@@ -316,7 +316,8 @@ pub fn timed_history(variant: usize) -> Option<String> {
             let (s1, s2) = (&solver.solution, &fresh.solution);
             // if the machine is so loaded that one delayed solve comes near the limit, nothing can be concluded
             if wall > 0.75 * limit || fresh.info.solve_time > 0.75 * limit { return None; }
-            if s1.status != s2.status || s1.iterations != s2.iterations {
+            // (iteration counts may differ: the updated solver keeps the equilibration of its original data)
+            if class_of(s1.status) != class_of(s2.status) {
                 return Some(format!("timed history, solve {}: the updated solver ends {:?} after {} iterations (this solve took {:.3}s of a {}s limit, reported solve_time {:.3}s) but a fresh solver on the same data ends {:?} after {}",
                                     round + 1, s1.status, s1.iterations, wall, limit, s1.solve_time, s2.status, s2.iterations));
             }
